@@ -42,6 +42,7 @@ def build_topo(spec):
     t.struct = None          # (shape, periodic dims) if the topology is a plain structured grid
     t.scale = 1
     t.patchsize = None
+    t.hierpatch = False
     t.boundary = False
     if kind == 'rect':
         shape = list(spec['shape'])
@@ -81,6 +82,8 @@ def build_topo(spec):
             topo = topo.refined_by(list(S))
         t.struct = None
         t.kind += '-hier'
+        t.hierpatch = bool(t.patchsize)
+        t.patchsize = None     # element numbers no longer identify the patch
     if spec.get('boundary'):
         topo = topo.boundary[spec['boundary']]
         t.struct = None
@@ -195,6 +198,8 @@ def promises(case, t, dims):
         c = None
     if derive and derive['kind'] == 'partition':
         c = None
+    if t.hierpatch and c is not None:
+        c = min(c, 0 if kw.get('patchcontinuous', True) else -1)    # interfaces inside and between patches are not told apart
     p['continuity'] = c
     p['patchcontinuity'] = None
     graded_patch = False
